@@ -100,6 +100,15 @@ def main() -> int:
         hits = C.forbidden_tokens([f for f in files if f.exists()])
         rep.obligation("no sorry/admit/native_decide/axiom in sources", "audit", not hits, "; ".join(hits[:5]))
 
+        if a.tier == "thorough":
+            # independent re-check of the compiled property modules by the toolchain's kernel re-checker
+            for m in lean_mods:
+                try:
+                    r = C.run(["lake", "env", "leanchecker", m], cwd=C.LEAN, timeout=3000)
+                    rep.obligation(f"leanchecker {m}", "kernel-recheck", r.returncode == 0, r.stdout[-300:])
+                except Exception as ex:  # noqa: BLE001
+                    rep.obligation(f"leanchecker {m}", "kernel-recheck", False, f"{type(ex).__name__}: {ex}")
+
     # 4. translator validation
     disagreements = []
     if mine and (C.LEAN / ".lake" / "build" / "lib" / "lean" / "WallGoVerif" / "Gen" / "F" / "Dispatch.olean").exists():
